@@ -54,6 +54,8 @@ def make_data(rng: random.Random) -> dict:
         "pname": rng.choice(PARTIAL_NAMES),
         "slugs": {"a": "name", "b": "a", "name": "tags", "alice": "age"},
         "sa": rng.choice(["a", "b", "zz"]),
+        "bombs": [1, {"__strobj__": "B"}, 3],
+        "sobj": {"__strobj__": rng.choice(["S", "s<b>", "42"])},
         "kobj": {"__liquid__": rng.choice(["name", "age", "tags", "missing", "size", "first", "last", "size", "first", "last"])},
         "iobj": {"__liquid__": rng.choice([0, 1, -1, 5])},
         **({} if rng.random() < 0.5 else {
@@ -88,6 +90,8 @@ class ProgGen:
         self.weights = {k: rng.choice([0, 1, 1, 2, 3]) for k in kinds}
         self.weights["text"] = 2
         self.weights["output"] = 4
+        if shopify:
+            self.weights["tablerow"] = rng.choice([2, 3, 4])
         self.kinds = kinds
 
     # ----------------------------------------------------------- expressions
@@ -104,7 +108,7 @@ class ProgGen:
             "words.first", "nums", "nums.size", "nums[1]", "ghost", "ghost.x.y", "user.ghost",
             "products[99].title", "user.tags[n]", "now", "forloop.index", "forloop.parentloop.index0",
             "who", "item", "item.title", "item.price", "p.title", "args", "kwargs", "block.super",
-            "matter_ns", "matter_ns", "products.0.title", "nums.1", "nested.1.0", "user.tags.0", "h.list.2",
+            "matter_ns", "matter_ns", "bombs", "sobj", "bombs[1]", "products.0.title", "nums.1", "nested.1.0", "user.tags.0", "h.list.2",
             "gv", "extra", "shared.n", "n.size", "user.age.first", "flag.last", "s.first", "s.last", "s.size", "nothing.first", "m.last",
         ]
         if self.locals and r.random() < 0.3:
@@ -436,6 +440,11 @@ class ProgGen:
 
     def n_tablerow(self, depth):
         r = self.rng
+        if r.random() < 0.35:   # interrupts at chosen cells: row boundaries, last column, last row
+            n, cols, at = r.choice([4, 5, 6]), r.choice([2, 3]), r.randint(1, 6)
+            return (self.tag(f"tablerow i in (1..{n}) cols: {cols}" + r.choice(["", " limit: 4", " offset: 1"]))
+                    + "{{ i }}{{ tablerowloop.col_last }}" + self.tag(f"if i == {at}") + self.tag(r.choice(["break", "continue"]))
+                    + self.tag("endif") + "." + self.tag("endtablerow"))
         e = self.loop_expr().replace(" reversed", "")
         if r.random() < 0.6:
             e += f" cols: {r.choice(['2', '3', 'n', 'm'])}"
